@@ -51,6 +51,7 @@ theorem trD_recv (hl : ∀ s, (cfg.lower s).length = s.length) (n : Nat) (ihA : 
   | hash k v r => exact recv_to_asg cfg sfh _ c hc (trD_hash cfg sfh n ihA k v r b c hw H h1 h2')
   | typ x => exact recv_to_asg cfg sfh _ c hc (trD_typ cfg sfh n ihA x b c hw H h1 h2')
   | sensitive x => exact recv_to_asg cfg sfh _ c hc (trD_sensitive cfg sfh n ihA x b c hw H h1 h2')
+  | iterator x => exact recv_to_asg cfg sfh _ c hc (trD_iterator cfg sfh n ihA x b c hw H h1 h2')
   | variant as =>
     have fa := H.fa; unfold Ty.TD at fa
     simp only [Ty.w] at hw
@@ -309,6 +310,7 @@ theorem Ty.TA.td : ∀ (n : Nat) (t : Ty), t.w ≤ n → t.TA sfh → Ty.WF cfg 
     · exact ⟨h.1, fun t' hm => ih t' (by have := Ty.w_lt_wl hm; omega) (h.2 t' hm) (wf t' hm)⟩
     · exact ⟨h.1, wf.1, fun m hm => ih m.2.2 (by have := Ty.w_lt_wm hm; omega) (h.2 m hm) (wf.2 m hm)⟩
     · exact fun t' hm => ih t' (by have := Ty.w_lt_wl hm; omega) (h t' hm) (wf t' hm)
+    · exact ih _ (by omega) h wf
     · exact ih _ (by omega) h wf
     · exact ih _ (by omega) h wf
     · exact ih _ (by omega) h wf
